@@ -63,11 +63,15 @@ def gen_C20(tier, seed):
     b = Builder("C20")
     small = range(0, 5 if tier == "quick" else 6)
     dims = [(c, r) for c in list(small) + HUGE for r in list(small) + HUGE]
+    dims += [(2**32, 2**30), (2**31, 2**31), (2**62, 3), (1, 2**63), (2**61, 1)]      # product fits a usize, not a Vec
     for elem in ["u32", "cell"]:
         for (c, r) in dims:
             prod = c * r
             valid_shape = (c == 0) == (r == 0) and prod <= U64
-            allocates_huge = valid_shape and prod > 64
+            # a valid shape beyond what a Vec<T> can hold panics with "capacity overflow" before allocating (safe to run);
+            # between 64 cells and that limit the allocation would really be attempted (skipped)
+            caplimit = (2**63 - 1) // (4 if elem == "u32" else 16)
+            allocates_huge = valid_shape and 64 < prod <= caplimit
             if not allocates_huge:
                 b.case(elem, [f"@ new {c} {r}", "@ dump", "@ lens"])
                 b.case(elem, [f"@ init {c} {r} 7", "@ dump", "@ lens"])
